@@ -794,14 +794,16 @@ class Interp:
                 idx = list(range(n))[lo:hi]
                 if len(idx) != len(v.rows):
                     raise _Raise(ExcV("ValueError", ["could not broadcast"]))
+                # numpy semantics: a store into a 2-D array writes the VALUES into the array's memory - every view of those rows
+                # (a slice taken earlier, a row fetched earlier) sees them
                 for i, r in zip(idx, v.rows):
-                    base.rows[i] = Arr(list(r.items))
+                    base.rows[i].items[:] = list(r.items)
                 return
             if isinstance(base, Arr2) and (is_num(v) or v is NAN):
                 n = len(base.rows)
                 lo, hi = ci(k.start, 0), ci(k.stop, n)
                 for i in list(range(n))[lo:hi]:
-                    base.rows[i] = Arr([v] * len(base.rows[i].items))
+                    base.rows[i].items[:] = [v] * len(base.rows[i].items)
                 return
             raise NotInFragment(f"slice store {norm(node)}")
         if isinstance(base, dict):
@@ -817,10 +819,11 @@ class Interp:
             return
         if isinstance(base, Arr2):
             i = self._index(k, len(base.rows), node)
+            # in place (numpy): views of this row see the new values
             if isinstance(v, Arr):
-                base.rows[i] = Arr(list(v.items))
+                base.rows[i].items[:] = list(v.items)
             elif isinstance(v, (list, tuple)):
-                base.rows[i] = Arr(list(v))
+                base.rows[i].items[:] = list(v)
             else:
                 raise NotInFragment(f"row store of {type(v).__name__}")
             return
